@@ -62,6 +62,12 @@ func (x *Exec) revChart() map[int]int {
 			if bset[lr.Rev] {
 				continue
 			}
+			// (an upgrade --atomic that fails creates two revisions, the second a copy of the one rolled back to: the chart
+			// version stored with the revision says which chart it carries)
+			if ci, ok := chartIndexByVersion(x.Plan, lr.ChartVer); ok {
+				m[lr.Rev] = ci
+				continue
+			}
 			switch r.Op.Op {
 			case "install", "upgrade":
 				m[lr.Rev] = r.Op.Chart
@@ -79,6 +85,18 @@ func (x *Exec) revChart() map[int]int {
 	return m
 }
 
+// chartIndexByVersion finds the chart of the plan with the given version, if the versions are distinct.
+func chartIndexByVersion(p *Plan, ver string) (int, bool) {
+	found, n := 0, 0
+	for i := range p.Charts {
+		if p.Charts[i].Version == ver && ver != "" {
+			found = i
+			n++
+		}
+	}
+	return found, n == 1
+}
+
 func oracleC12(x *Exec, so *StepObs) {
 	if so.After == nil || len(so.Results) != 1 {
 		return
@@ -86,7 +104,31 @@ func oracleC12(x *Exec, so *StepObs) {
 	const P = "C12"
 	r := so.Results[0]
 	op := &r.Op
-	if isDryOp(op) || r.Crashed || op.Atomic {
+	if isDryOp(op) || r.Crashed {
+		return
+	}
+	if op.Atomic {
+		// only the last sentence of the statement is judged for --atomic: with hooks disabled none is created, not by the
+		// operation itself and not by the rollback / uninstall it runs on failure (whose hooks come from other chart versions)
+		if op.NoHooks {
+			x.Res.Checks++
+			all := map[string]bool{}
+			for ci := range x.Plan.Charts {
+				for i := range x.Plan.Charts[ci].Slots {
+					if x.Plan.Charts[ci].Slots[i].Hook != nil {
+						all[slotID(&x.Plan.Charts[ci].Slots[i], x.Plan.Namespace).String()] = true
+					}
+				}
+			}
+			for _, q := range r.Reqs {
+				if q.Verb == "POST" && q.ID != nil && all[q.ID.String()] && q.SeqOut != 0 {
+					x.Violate(Violation{"C12", "disabled-hooks-not-created", op.Op, "nohooks+atomic", fmt.Sprintf("hook %s was created although hooks are disabled (%s --atomic --no-hooks)", q.ID, op.Op), so.Index})
+					x.stop = true
+					return
+				}
+			}
+			x.Sim.Probe("c12-atomic-nohooks-judged")
+		}
 		return
 	}
 	ns := x.Plan.Namespace
@@ -392,6 +434,18 @@ func genC12(seed, index uint64, tier string) *Plan {
 		p.Variant = "hook-fail"
 		si := g.N(len(p.Steps))
 		p.Steps[si].Faults = []FaultSpec{{Kind: FHookFail, Pred: &Pred{Nth: 1 + g.N(4)}}}
+	}
+	if p.Variant == "clean" && len(p.Steps) > 1 && g.Chance(0.15) {
+		// upgrade --atomic --no-hooks that the cluster refuses: the automatic rollback must not run hooks either
+		for si := len(p.Steps) - 1; si > 0; si-- {
+			if p.Steps[si].Op.Op == "upgrade" {
+				p.Variant = "atomic-nohooks"
+				p.Steps[si].Op.Atomic = true
+				p.Steps[si].Op.NoHooks = true
+				p.Steps[si].Faults = []FaultSpec{{Kind: FReject, Code: 403, Pred: &Pred{Storage: boolp(false), Mutating: boolp(true), PathHas: "/namespaces/", Nth: 1 + g.N(2)}}}
+				break
+			}
+		}
 	}
 	if p.Variant == "clean" && g.Chance(0.4) {
 		// the wait for the release's own resources times out. (Timeouts of the wait that follows the DELETE of a hook
